@@ -74,8 +74,10 @@ def run(repo: Repo) -> Result:
     want2 = [["render_args"], ["self", "matter"], ["self", "globals"]]
     if not (len(rets) == 1 and isinstance(rets[0].value, ast.Call) and callee_name(rets[0].value) == "ReadOnlyChainMap" and [attr_chain(a) for a in rets[0].value.args] == want2):
         res.add("C14-CHAIN", mg.qual, "order", "BoundTemplate.make_globals must chain (render_args, self.matter, self.globals) in that order", mg.file, mg.line)
+    from ..normalize import nfunc as _nfunc14
+
     for m in ("render", "render_async"):
-        f = repo.own_method("liquid.template.BoundTemplate", m)
+        f = _nfunc14(repo, repo.own_method("liquid.template.BoundTemplate", m), keep=("make_globals", "_get_buffer", "render_with_context", "render_with_context_async"))  # private helpers inlined
         res.ob(f.qual)
         ok = any(
             isinstance(c, ast.Call) and text(c.func) == "self.context_class" and any(k.arg == "globals" and isinstance(k.value, ast.Call) and callee_name(k.value) == "make_globals" and text(k.value.args[0]) == "dict(*args, **kwargs)" for k in c.keywords)
